@@ -84,10 +84,18 @@ class AsyncContext(object):
     """
 
     def __enter__(self):
-        if not is_asyncio_mode():
-            self._active_task = enter_context(self)
-
-        self.resume()
+        if is_asyncio_mode():
+            self.resume()
+            return self
+        self._active_task = enter_context(self)
+        try:
+            self.resume()
+        except BaseException:
+            # the block is not entered, so __exit__ will not be called: the context must
+            # not stay registered with the task (which would go on pausing and resuming it)
+            leave_context(self, self._active_task)
+            del self._active_task
+            raise
         return self
 
     def __exit__(self, ty, value, tb):
